@@ -727,6 +727,15 @@ pub proof fn lemma_string_token_advance(p: (int, int), s: Seq<char>)
 //@@ REPLACE
 //@@< for $sc in it {
 //@@> while let Some($sc) = it.next() invariant !$term, $string@ =~= consumed(rest(*old(it)), rest(*it)), is_suffix(rest(*it), rest(*old(it))), -($string@.len() as int) <= $depth as int <= $string@.len(), $string@.len() <= rest(*old(it)).len(), ($string@.len() > 0 ==> $string@[0] != '"'), ($string@.len() == 0 ==> !$bs && $depth == 0), decreases rest(*it).len(), { /* `for c in it` over `&mut Peekable` spelled as the `while let Some(c) = it.next()` it desugars to */
+//@@ HINT before
+//@@< $coff = match $string.rfind('\n')
+//@@> proof { lemma_breaks_bound($string@); }
+//@@ OUTLINE optional
+//@@< $string.rfind('\n')
+//@@> verif_outline_rfind_nl(&$string)
+//@@ OUTLINE optional
+//@@< $string.matches('\n').count()
+//@@> verif_outline_count_nl(&$string)
 //@@ OUTLINE
 //@@< $cexpr[0..$$].to_owned()
 //@@> verif_outline_prefix(&$cexpr, $$1)
